@@ -17,6 +17,8 @@ VOCAB = [
     '1.5', '(1)', '3)x', '.', ')', '(', '1.', '2.', '14.', '10)', '1)', '2)', '0.', '1.x', '007', '1', '42', '.5', '...', 'e.g.', 'i.e.,', ',', ';', ':', '::',
     '"quoted"', "'single'", "it's", '"', "'", '!', '!!', '?', 'what?!', '/', 'a/b', '{', '}', '{x}', ':-', ':-:', '-:', '|-', '-|-', '2 * 3', 'a _ b', 'x : y',
     '2 * 3', 'a * b * c', 'x　_　y', '5 * 6 *', '* x *', 'http://x.y/z', 'www.x.y', 'a.b@c.d',
+    # delimiter runs next to punctuation: flanking (6.2) decides, and two closers (or two openers) never pair
+    '(_', '_)', '(*', '*)', '"_', '_"', '(__', '__)', '._', '_.', 'x_)', '(_x', '*,', ',*', '_,', '!_', 'x*)', '(*x', '**.', '.**', '_;', '-_', '_-',
     # 6.2: what merely looks like a character reference
     '&notit;', '&copyfoo;', '&ampere;', '&ltx;', '&nosuch;', '&#99999999;', '&#xFFFFFFF;', '&Amp;', '&#;', '&#x;', '&amp', '&#35',
     # digits that are not ASCII digits never form a list marker (5.2)
@@ -31,13 +33,13 @@ def expected(lines):
 
 
 FORMS = ('str', 'str-no-final-newline', 'list-terminated', 'list-unterminated')
-PRIOR = ('none', 'aborted-inline-tokenization', 'renderer-without-code-spans', 'document-with-code-spans-and-references')
+PRIOR = ('none', 'aborted-inline-tokenization', 'renderer-without-code-spans', 'document-with-code-spans-and-references', 'setext-headings-off')
 
 
 def prior_use(kind):
     """An earlier use of the library in the same process; none of them may leave anything behind (they do not on the
     repaired tree: C11 decides that; here the point is that prose passes through whatever came before)."""
-    from mistletoe import Document, HtmlRenderer, span_token
+    from mistletoe import Document, HtmlRenderer, span_token, block_token
     if kind == 'aborted-inline-tokenization':
         try:
             span_token.tokenize_inner('`code` and a [full][reference] *x*')    # no Document: the reference lookup raises
@@ -47,6 +49,9 @@ def prior_use(kind):
         with HtmlRenderer() as r:
             span_token.remove_token(span_token.InlineCode)
             r.render(Document('backticks are `literal` here and ``here``\n'))
+    elif kind == 'setext-headings-off':
+        # the documented switch Paragraph.parse_setext: with it off a line of '=' after text is text (undone by check())
+        block_token.Paragraph.parse_setext = False
     elif kind == 'document-with-code-spans-and-references':
         mt.html('[r]: /u "t"\n\n`a` [r] **b** <i>x</i> ~~s~~ ![i](/s)\n\n- > ```\n  > c\n')
 
@@ -62,7 +67,7 @@ def supply(lines, form):
 
 
 def check(ctx, lines, source, form='str', prior='none'):
-    reason = inert.paragraph_reason(lines)
+    reason = inert.paragraph_reason(lines, setext=prior != 'setext-headings-off')
     if reason:
         ctx.count('rejected_by_predicate', reason)
         return
@@ -77,6 +82,8 @@ def check(ctx, lines, source, form='str', prior='none'):
     except Exception as e:  # noqa
         ctx.violation('raises', mt.exc_site(e), case, traceback=mt.tb_text(e))
         return
+    finally:
+        _setext_on()
     exp = expected(lines)
     if got != exp:
         ctx.violation('not-passed-through', mechanism(got, exp), case, expected=exp, observed=got)
@@ -90,9 +97,17 @@ def check(ctx, lines, source, form='str', prior='none'):
                 ctx.counters['token_position'][pos + ('-linestart' if j == 0 else '')] += 1
 
 
+def _setext_on():
+    from mistletoe import block_token
+    block_token.Paragraph.parse_setext = True
+
+
 def passes(lines, form='str', prior='none'):
-    prior_use(prior)
-    return mt.html(supply(lines, form)) == expected(lines)
+    try:
+        prior_use(prior)
+        return mt.html(supply(lines, form)) == expected(lines)
+    finally:
+        _setext_on()
 
 
 def classify(clause, key, case, detail):
@@ -179,6 +194,12 @@ def run(ctx):
             if idx % ctx.nshards == ctx.shard:
                 check(ctx, ['text', d + b], 'deep-indented-blockish')
                 check(ctx, ['text', d + b, 'more'], 'deep-indented-blockish')
+    for under in ('=', '==', '===', ' ===', '   =', '=== ', '========'):
+        for body in (['text'], ['text', 'more'], ['a = b'], ['   text']):
+            idx += 1
+            if idx % ctx.nshards == ctx.shard:
+                check(ctx, body + [under], 'setext-off', 'str', 'setext-headings-off')
+                check(ctx, body + [under, 'after'], 'setext-off', 'str', 'setext-headings-off')
     pairs = itertools.product(VOCAB, repeat=2)
     for a, b in pairs:
         idx += 1
